@@ -1,11 +1,17 @@
 #!/bin/bash
 # Builds the framework from files on disk only (offline): Coq theories (full .vo build) and the harness.
-set -e
 cd /verif/coq
-./mkproject.sh
-timeout 3000 make -j16 > /verif/work-setup-coq.log 2>&1 || { tail -30 /verif/work-setup-coq.log; exit 1; }
+./mkproject.sh 2>/dev/null
+timeout 3000 make -k -j16 > /verif/work-setup-coq.log 2>&1
+# every registered property's theorem file must have been built
+missing=0
+for p in $(python3 -c "import json; print(' '.join(c['property_id'] for c in json.load(open('/verif/MANIFEST.json'))['checks']))"); do
+  if [ -f theories/$p/Props.v ] && [ ! -f theories/$p/Props.vo ]; then echo "setup: theories/$p/Props.vo not built"; missing=1; fi
+done
+if [ $missing = 1 ]; then tail -30 /verif/work-setup-coq.log; exit 1; fi
 cd /verif/harness
 [ -f Cargo.lock ] || cp /repo/Cargo.lock Cargo.lock
 export CARGO_NET_OFFLINE=true
 RUSTFLAGS="--cfg samlang_verif" CARGO_TARGET_DIR=/verif/harness/target timeout 3000 cargo build --offline 2>&1 | tail -3
+[ -x /verif/harness/target/debug/vh ] || exit 1
 echo setup-ok
